@@ -4,6 +4,7 @@ import (
 	"errors"
 	"fmt"
 	"math"
+	"strings"
 
 	"github.com/0xrawsec/sod"
 )
@@ -99,6 +100,24 @@ func rejections() []Rejection {
 		{"many-conflict-inside", hasFree(1), func(w *World) error {
 			fk := freeKeys(w)
 			a, b := NewRec(1, fk[0]), NewRec(2, fk[0])
+			_, err := w.DB.InsertOrUpdateMany(a, b)
+			return err
+		}, sod.IsUnique},
+		{"many-conflict-inside-case-variant", hasFree(2), func(w *World) error {
+			// the second element collides with the first only after case canonicalisation
+			fk := freeKeys(w)
+			a, b := NewRec(1, fk[0]), NewRec(2, fk[1])
+			a.K = strings.ToUpper(a.K)
+			b.K = lowerASCII(a.K)
+			_, err := w.DB.InsertOrUpdateMany(a, b)
+			return err
+		}, sod.IsUnique},
+		{"many-conflict-stored-case-variant", func(w *World) bool { return anyStored(w) && len(freeKeys(w)) >= 2 }, func(w *World) error {
+			// the last element collides with a stored object only after case canonicalisation
+			fk := freeKeys(w)
+			_, m := firstStored(w)
+			a, b := NewRec(1, fk[0]), NewRec(2, fk[1])
+			b.K = lowerASCII(m.K)
 			_, err := w.DB.InsertOrUpdateMany(a, b)
 			return err
 		}, sod.IsUnique},
